@@ -1,8 +1,33 @@
 import PyPhysim.Model.Proto
-open PyPhysim.Proto
+import PyPhysim.Model.C12
+open PyPhysim.Proto PyPhysim.C12
 
--- stub: replaced when the C12 model is written
+def ratAbs (x : Rat) : Rat := if x < 0 then -x else x
+def ratMax (x y : Rat) : Rat := if x < y then y else x
+
+/-- smallest distance |T - P| / max(|T|,|P|,minMu) over the loop tests actually
+    performed (those up to and including the one that stopped the loop) -/
+def margin (P : Rat) (tests : List (Rat × Rat)) (performed : Nat) : Rat :=
+  (tests.take performed).foldl
+    (fun m t => let d := ratAbs (t.1 - P) / ratMax (ratMax (ratAbs t.1) (ratAbs P)) (ratAbs t.2)
+                if d < m then d else m) 1
+
+def showRes (g : List Rat) (P N Es : Rat) : String :=
+  match doWF g P N Es with
+  | .error e => "error:" ++ toString e
+  | .ok (p, mu) =>
+    let asc := argsortAsc g
+    let k := keptCount asc P N Es
+    let performed := asc.length - k + 1
+    "p=" ++ showList showRat p ++ " mu=" ++ showRat mu ++ " kept=" ++ toString k
+      ++ " margin=" ++ showRat (margin P (loopTests N Es asc) performed)
+
 def handle : List String → String
+  | "wf" :: rest =>
+    match (kv rest "gains").bind (parseRatList? ·), (kv rest "P").bind parseRat?,
+          (kv rest "N").bind parseRat?, (kv rest "Es").bind parseRat? with
+    | some g, some P, some N, some Es => showRes g P N Es
+    | _, _, _, _ => "bad-op"
   | _ => "bad-op"
 
 def main : IO Unit := runDriver handle
